@@ -2,7 +2,7 @@
 from props_common import COMMON_NOTE
 
 CONF = dict(
-    families=[('tx', 250, 4000), ('raw', 250, 4000)],
+    families=[('tx', 220, 4000), ('raw', 220, 4000), ('blk', 120, 2000), ('rawblk', 160, 2500)],
     compare=None,
     trusted=['modelled by hand: transaction/transaction.go serialize/NewTxFromBuffer, internal/bufferutil (varint, slices, vectors, Elements value/asset/nonce readers), block/serialize.go, block/deserialize.go'],
     explanation='theorems: parse(ser t ++ rest) = (norm t, rest) for all wf t; ser(parse bs) ++ rest = bs for all accepted bs with canonical flag; same for headers/blocks. K: model vs implementation on generated transaction/block values (3/4 inside the wf domain) and on a malformed byte stream.',
@@ -10,6 +10,6 @@ CONF = dict(
 
 TEXT = dict(
     text='Machine-checked proof (Coq) over an executable model of the transaction wire codec: for every well-formed transaction parse(serialize t ++ rest) = (t, rest), and every accepted byte string with a canonical flag re-serializes to exactly the bytes consumed; varint round-trip and canonicity for all 64-bit values. Unbounded in counts and lengths. The model is tied to the code by differential runs (model vs implementation on structured and malformed inputs) and by regenerated constants.',
-    note=COMMON_NOTE + 'Modelled by hand: transaction.serialize/NewTxFromBuffer, bufferutil readers/writers (after fix 23c9d1b). Block header/body codec is covered by the correspondence check only until its theorems land.',
+    note=COMMON_NOTE + 'Modelled by hand: transaction.serialize/NewTxFromBuffer, bufferutil readers/writers (after fix 23c9d1b), block/serialize.go and block/deserialize.go (after fix 246dd82); Go struct values the wire cannot express (both or neither of Compact/Full, nil ExtData) are outside the model's types.',
     technique='Coq proof of codec round-trip (both directions) + model/implementation differential check',
 )
